@@ -9,6 +9,7 @@ package main
 import (
 	"fmt"
 	"go/constant"
+	"go/types"
 	"sort"
 	"strings"
 
@@ -97,24 +98,25 @@ func commentsRule(c *Ctx, rule string) {
 	c.Rule(rule, "the comment skippers, extracted as automata over their read sites: a line comment ends at the first newline or end of input and nowhere else; a block comment ends exactly at the first `*` followed by `/` (a run of stars stays in the 'seen star' state, any other rune returns to the initial state), and end of input inside it is an error")
 	// line comment
 	if f := p.SSAFunc(p.Method("Scanner", "skipUntilNewline")); f != nil {
-		auto, names, why := p.readAutomaton(f, []rune{'\n', 0, 'x', '*', '/', '-'})
+		eofR := p.eofRune()
+		auto, names, why := p.readAutomaton(f, []rune{'\n', eofR, 'x', '*', '/', '-'})
 		if auto == nil || len(names) == 0 {
 			c.Unk(rule, "skipUntilNewline", f.Pos(), "automaton not extracted: "+why)
 		} else {
 			// the reference has one state: every read site must behave like it
 			// (newline or end of input: return; anything else: keep reading)
 			for i, site := range names {
-				for _, cl := range []rune{'\n', 0, 'x', '*', '/', '-'} {
+				for _, cl := range []rune{'\n', eofR, 'x', '*', '/', '-'} {
 					succ := auto[site][cl]
-					key := fmt.Sprintf("skipUntilNewline: on %q", cl)
+					key := fmt.Sprintf("skipUntilNewline: on %s", p.runeLabel(cl))
 					if i > 0 {
-						key = fmt.Sprintf("skipUntilNewline: read site #%d on %q", i+1, cl)
+						key = fmt.Sprintf("skipUntilNewline: read site #%d on %s", i+1, p.runeLabel(cl))
 					}
 					if len(succ) == 0 {
 						c.Unk(rule, key, f.Pos(), "successor not extracted (state kept in variables)")
 						continue
 					}
-					wantReturn := cl == '\n' || cl == 0
+					wantReturn := cl == '\n' || cl == eofR
 					ok := true
 					for _, to := range succ {
 						isRet := strings.HasPrefix(to, "return")
@@ -139,7 +141,8 @@ func commentsRule(c *Ctx, rule string) {
 		c.Unk(rule, "skipUntilEndComment", 0, "anchor not found")
 		return
 	}
-	classes := []rune{'*', '/', 'x', 0, '\n'}
+	eofR := p.eofRune()
+	classes := []rune{'*', '/', 'x', eofR, '\n'}
 	auto, names, why := p.readAutomaton(f, classes)
 	if auto == nil {
 		c.Unk(rule, "skipUntilEndComment", f.Pos(), "automaton not extracted: "+why)
@@ -155,8 +158,8 @@ func commentsRule(c *Ctx, rule string) {
 	}
 	// bisimulation with the reference automaton: S0 (initial), S1 (after a star)
 	ref := map[string]map[rune]string{
-		"S0": {'*': "S1", '/': "S0", 'x': "S0", '\n': "S0", 0: "return:err"},
-		"S1": {'*': "S1", '/': "return:nil", 'x': "S0", '\n': "S0", 0: "return:err"},
+		"S0": {'*': "S1", '/': "S0", 'x': "S0", '\n': "S0", eofR: "return:err"},
+		"S1": {'*': "S1", '/': "return:nil", 'x': "S0", '\n': "S0", eofR: "return:err"},
 	}
 	// map each read site to a reference state, starting from the first site = S0
 	assign := map[string]string{names[0]: "S0"}
@@ -169,7 +172,7 @@ func commentsRule(c *Ctx, rule string) {
 		for _, cl := range classes {
 			succ := auto[site][cl]
 			want := ref[st][cl]
-			key := fmt.Sprintf("skipUntilEndComment: state %s on %q", st, cl)
+			key := fmt.Sprintf("skipUntilEndComment: state %s on %s", st, p.runeLabel(cl))
 			if len(succ) != 1 {
 				c.Bad(rule, key, f.Pos(), fmt.Sprintf("goes to %v, must go to %s", succ, want))
 				okAll = false
@@ -201,4 +204,25 @@ func commentsRule(c *Ctx, rule string) {
 		}
 	}
 	_ = okAll
+}
+
+// eofRune is the rune the scanner's reader substitutes at end of input: the
+// value of the package-level constant reader.read buffers on its error branch
+// (found by name; 0 when the package has no such constant).
+func (p *Program) eofRune() rune {
+	if k, ok := p.Types.Scope().Lookup("eof").(*types.Const); ok {
+		if v, ok := constant.Int64Val(constant.ToInt(k.Val())); ok {
+			return rune(v)
+		}
+	}
+	return 0
+}
+
+// runeLabel names a character class in obligation keys; the end marker keeps
+// one label whatever its value.
+func (p *Program) runeLabel(r rune) string {
+	if r == p.eofRune() {
+		return "end of input"
+	}
+	return fmt.Sprintf("%q", r)
 }
